@@ -160,7 +160,7 @@ def run_shard(spec):
     for i in range(spec["lo"], spec["hi"]):
         rng = loadcheck.case_rng(spec["seed"] + 1111, i)
         ast = gen.gen_schema(rng, section_dts=SECTION_DTS, value_dts=VALUE_DTS, keytypes=KEYTYPES,
-                             derive_bias=rng.choice([0.3, 0.6, 0.8]))
+                             derive_bias=rng.choice([0.3, 0.6, 0.8]), boost=0)
         if rng.random() < 0.25:
             boost_rekey(rng, ast)
             counters["schema:boosted-rekeyed-defaults"] += 1
